@@ -28,8 +28,8 @@ Theorem boot_parse_view ops :
   let s := brun binit ops in
   lspace (bl s) <= 4294967295 -> boot_parse (boot_view s) = POk (reopened s).
 Proof.
-  intros s HS. pose proof (boot_parse_full_view_run ops HS) as E. unfold boot_parse_full in E.
-  unfold boot_parse, boot_parse_gen. fold s. rewrite E. reflexivity.
+  intros s HS. subst s. pose proof (boot_parse_full_view_run ops HS) as E. cbv zeta in E. unfold boot_parse_full in E.
+  unfold boot_parse, boot_parse_gen. rewrite E. reflexivity.
 Qed.
 
 (* ---- 2. what is equal and what differs -------------------------------------------------------------------- *)
@@ -87,8 +87,9 @@ Proof.
       assert (Hl : len' = v) by (apply (bp_t_len Cur s HI HF HS i v Hin)).
       destruct (bp_hidden_length s HI HF b i v Hb Hin2) as (_ & _ & Hv).
       split; [rewrite Hl; exact Hv|]. split.
-      * rewrite Hl, Hv. pose proof (bp_len_nonneg s i HI) as Hn. fold tbl in Hn.
-        destruct (mem i (bbits s) && (64 <=? len_of i tbl)); unfold blk_of, ceiling_div, C in *; fold tbl; lia.
+      * rewrite Hl, Hv. pose proof (bp_len_nonneg s i HI) as Hn.
+        unfold blk_of, ceiling_div, C, tbl in *.
+        destruct (mem i (bbits s) && (64 <=? len_of i (linodes (bl s)))); lia.
       * rewrite Hl. unfold reopened_src, reopened_src_gen. rewrite Hb. apply in_or_app. right.
         apply in_map_iff. exists (i, v). split; [reflexivity|exact Hin2].
 Qed.
@@ -108,7 +109,7 @@ Proof.
   - split; [apply (ab_step_preserves_inv s o HI)|]. split; [apply (ab_step_fix s o HI HF)|apply (bp_step_pinv s o HP HI)].
   - pose proof (bp_pinv_stamps_ok s HP) as HS.
     split; [apply (bp_reopened_inv_cur s HI HF HS)|]. split; [apply (bp_reopened_fix_cur s HI HF HS)|].
-    apply (bp_reopened_pinv Cur s HI HF HP).
+    apply (bp_reopened_pinv Cur s HP).
 Qed.
 
 Lemma bp_reach_run ops : forall s, bp_reach s -> bp_reach (brun s ops).
@@ -176,8 +177,8 @@ Proof.
   split.
   - unfold bstep, bstep_gen, bstep_rm_eltorito, brefuse. rewrite Hwr, Hw.
     destruct (bboot r) eqn:E; destruct (bboot s) eqn:Es; cbn [snd]; try reflexivity.
-    + exfalso. assert (bboot r = None) by (apply Hbr; reflexivity). congruence.
-    + exfalso. assert (Some b = None) by (apply Hbr; exact E). discriminate.
+    + exfalso. assert (X : Some b = None) by (apply Hbr; reflexivity). discriminate X.
+    + exfalso. assert (X : Some b = None) by (apply Hbr; reflexivity). discriminate X.
   - intros Hb.
     assert (Hr1 : bp_reach r1) by (apply bp_reach_step, Hrr).
     destruct (bp_reach_inv r1 Hr1) as (HI1 & _ & HP1).
